@@ -17,7 +17,8 @@ import json, os, shutil, subprocess, sys, time
 ENV = dict(os.environ, GOFLAGS="-mod=mod", GOPROXY="off", GOTOOLCHAIN="go1.25.0")
 ENV.pop("GOSUMDB", None)
 
-DEMO_PKG = {"C01": "rle", "C03": "jpegls/lossless", "C04": "jpeg2000", "C13": "jpeg/lossless", "C19": "jpeg2000"}
+DEMO_PKG = {"C01": "rle", "C03": "jpegls/lossless", "C04": "jpeg2000", "C13": "jpeg/lossless", "C19": "jpeg2000",
+            "C02": "jpeg/lossless", "C06": "jpeg2000/htj2k", "C14": "jpegls/lossless", "C17a": "jpegls/lossless", "C17b": "rle"}
 
 def sh(cmd, cwd=None, timeout=3600):
     p = subprocess.run(cmd, shell=True, cwd=cwd, env=ENV, stdout=subprocess.PIPE, stderr=subprocess.STDOUT, timeout=timeout)
@@ -60,7 +61,7 @@ def main():
         # demo placement
         demo_cmd = None
         if os.path.exists(f"{src}/demo_test.go"):
-            pkg = DEMO_PKG.get(pid)
+            pkg = DEMO_PKG.get(pid + var) or DEMO_PKG.get(pid)
             for line in readme.splitlines():
                 pass
             shutil.copy(f"{src}/demo_test.go", f"{wt}/{pkg}/zz_seed_demo_test.go")
@@ -70,7 +71,7 @@ def main():
             demo_cmd = f"go test -count=1 -run '^({'|'.join(names)})$' ./{pkg}/"
         else:
             shutil.copytree(f"{src}/demo", f"{wt}/zz_seed_demo")
-            demo_cmd = "go run ./zz_seed_demo"
+            demo_cmd = "go run -race ./zz_seed_demo" if pid == "C18" else "go run ./zz_seed_demo"
         # 3. without the patch
         rc0, o0 = sh(demo_cmd, cwd=wt)
         meta["ran"].append(f"demo without change: exit {rc0}")
@@ -88,7 +89,7 @@ def main():
             rcs, os_ = sh("go test -count=1 ./... 2>&1 | grep -v zz_seed | grep -E '^(FAIL|---|panic)' | head -20", cwd=wt)
             rcs2, osum = sh("go test -count=1 ./... 2>&1 | grep -c '^ok'", cwd=wt) if False else (0, "")
             # run the suite without the demo file
-            demo_file = f"{wt}/{DEMO_PKG.get(pid)}/zz_seed_demo_test.go"
+            demo_file = f"{wt}/{DEMO_PKG.get(pid + var) or DEMO_PKG.get(pid)}/zz_seed_demo_test.go"
             hidden = False
             if os.path.exists(demo_file):
                 os.rename(demo_file, demo_file + ".hide"); hidden = True
@@ -105,7 +106,7 @@ def main():
             return finish(meta, out, src, wt, patch)
         # 4. the check
         # remove demo artefacts from the tree the harness builds against
-        for f in (f"{wt}/{DEMO_PKG.get(pid)}/zz_seed_demo_test.go",):
+        for f in (f"{wt}/{DEMO_PKG.get(pid + var) or DEMO_PKG.get(pid)}/zz_seed_demo_test.go",):
             if os.path.exists(f):
                 os.remove(f)
         shutil.rmtree(f"{wt}/zz_seed_demo", ignore_errors=True)
